@@ -4,6 +4,7 @@ package main
 
 import (
 	"fmt"
+	"go/ast"
 	"go/types"
 	"regexp"
 	"strings"
@@ -414,23 +415,81 @@ func (f *Frame) ufResult(key string, i int, all []Value, allT []types.Type, rtp 
 	return app(rs, n, ts...)
 }
 
+// modTarget describes one entry of a modifies clause.
+//   x        (slice)            -> contents of the region of x
+//   x        (pointer)          -> every field of object x
+//   x.f      (x pointer)        -> the field cell x.f only
+//   x.f[*]   / x[*]             -> contents of the region of the slice x.f / x
+type modTarget struct {
+	region *Term  // element-heap region allowed to change
+	obj    *Term  // object whose fields may change (all fields, or only field when heap != "")
+	heap   string // field heap name for field-level targets
+	typ    types.Type
+	val    Term
+}
+
+func (env *SpecEnv) modTargets(m string) ([]modTarget, error) {
+	e := env.e
+	contents := false
+	if strings.HasSuffix(m, "[*]") {
+		contents = true
+		m = strings.TrimSuffix(m, "[*]")
+	}
+	cl, err := parseClause(m)
+	if err != nil {
+		return nil, err
+	}
+	if sel, ok := cl.Expr.(*ast.SelectorExpr); ok && !contents {
+		base, err := env.eval(sel.X)
+		if err == nil && base.Typ != nil {
+			if p, ok := base.Typ.Underlying().(*types.Pointer); ok {
+				if st, ok := p.Elem().Underlying().(*types.Struct); ok {
+					for i := 0; i < st.NumFields(); i++ {
+						if st.Field(i).Name() == sel.Sel.Name {
+							hn, _ := e.fieldHeapName(p.Elem(), i)
+							o := base.T
+							return []modTarget{{obj: &o, heap: hn, typ: st.Field(i).Type()}}, nil
+						}
+					}
+				}
+			}
+		}
+	}
+	v, err := env.eval(cl.Expr)
+	if err != nil {
+		return nil, err
+	}
+	if v.T.Sort == SSlice {
+		r := sReg(v.T)
+		return []modTarget{{region: &r, typ: v.Typ, val: v.T}}, nil
+	}
+	o := v.T
+	return []modTarget{{obj: &o, typ: v.Typ, val: v.T}}, nil
+}
+
 func (f *Frame) havocModifies(env *SpecEnv, m string, ct *Contract) {
 	e := f.e
 	if m == "*" {
 		f.havocAll()
 		return
 	}
-	cl, err := parseClause(m)
+	ts, err := env.modTargets(m)
 	if err != nil {
 		e.specError(fmt.Sprintf("contract %s modifies %q: %v", ct.Key, m, err))
 		return
 	}
-	v, err := env.eval(cl.Expr)
-	if err != nil {
-		e.specError(fmt.Sprintf("contract %s modifies %q: %v", ct.Key, m, err))
-		return
+	for _, t := range ts {
+		switch {
+		case t.heap != "":
+			hs := arraySort(SRef, e.sortOf(t.typ))
+			h := e.heap(f.st, t.heap, hs)
+			fv := e.havoc(t.heap+"_hv", e.sortOf(t.typ))
+			e.assumeExisting(f.st, tTrue, fv, t.typ)
+			e.setHeap(f.st, t.heap, store(h, *t.obj, fv))
+		default:
+			f.havocValue(t.val, t.typ, 0)
+		}
 	}
-	f.havocValue(v.T, v.Typ, 0)
 }
 
 // havocValue havocs memory directly reachable from a value (slice region / object fields).
@@ -453,11 +512,10 @@ func (f *Frame) havocValue(t Term, typ types.Type, depth int) {
 		switch eu := elem.Underlying().(type) {
 		case *types.Struct:
 			for i := 0; i < eu.NumFields(); i++ {
-				hn, hs := e.fieldHeapName(elem, i)
-				h := e.heap(f.st, hn, hs)
-				fv := e.havoc(hn+"_hv", arrayElem(hs))
+				loc := e.fieldLoc(elem, i, t)
+				fv := e.havoc(loc.heap+"_hv", e.sortOf(eu.Field(i).Type()))
 				e.assumeExisting(f.st, tTrue, fv, eu.Field(i).Type())
-				e.setHeap(f.st, hn, store(h, t, fv))
+				e.storeAddr(f.st, loc, fv)
 				if depth < 1 && refLike(eu.Field(i).Type()) {
 					f.havocTypeHeaps(eu.Field(i).Type(), depth+1)
 				}
@@ -753,8 +811,8 @@ func (f *Frame) addrEffects(a ssa.Value, eff *effects) {
 			return
 		}
 		st := root.X.Type().Underlying().(*types.Pointer).Elem()
-		hn, hs := e.fieldHeapName(st, root.Field)
-		eff.names[hn] = hs
+		loc := e.fieldLoc(st, root.Field, i64(0))
+		eff.names[loc.heap] = loc.hsort
 	case *ssa.IndexAddr:
 		switch t := x.X.Type().Underlying().(type) {
 		case *types.Slice:
@@ -781,8 +839,8 @@ func (f *Frame) addrEffects(a ssa.Value, eff *effects) {
 		switch u := pt.Elem().Underlying().(type) {
 		case *types.Struct:
 			for i := 0; i < u.NumFields(); i++ {
-				hn, hs := e.fieldHeapName(pt.Elem(), i)
-				eff.names[hn] = hs
+				loc := e.fieldLoc(pt.Elem(), i, i64(0))
+				eff.names[loc.heap] = loc.hsort
 			}
 		case *types.Array:
 			hn, hs := e.elemHeapName(e.sortOf(u.Elem()))
@@ -810,8 +868,8 @@ func (f *Frame) typeEffects(t types.Type, eff *effects, depth int) {
 		switch eu := u.Elem().Underlying().(type) {
 		case *types.Struct:
 			for i := 0; i < eu.NumFields(); i++ {
-				hn, hs := e.fieldHeapName(u.Elem(), i)
-				eff.names[hn] = hs
+				loc := e.fieldLoc(u.Elem(), i, i64(0))
+				eff.names[loc.heap] = loc.hsort
 				if depth < 1 {
 					f.typeEffects(eu.Field(i).Type(), eff, depth+1)
 				}
